@@ -27,7 +27,7 @@ SEQ_BASE = dict(AeadC="1", KdfC="1", ExpMenu='"few"', SweepFrom="0", SweepTo="0"
 
 SETUP_BASE = dict(KemSet="{32}", KdfSet="{1}", AeadSet="{1, 65535}", ModeSet="{0, 1, 2, 3}", Vals='"small"',
                   Perturb='{"none", "info", "psk", "pskid", "mode", "kdf", "aead", "skr", "enc", "pks", "shift"}',
-                  Impost="FALSE", ShotsOnly="FALSE", ShotDl='"tamper"', Twin="FALSE", BadPkR='"none"', Shape='"all"', Emit="FALSE", Ordered="TRUE", MaxSeals="0", MaxOpens="0", MaxExports="0", MaxShots="0",
+                  Impost="FALSE", ShotsOnly="FALSE", ShotDl='"tamper"', Twin="FALSE", BadPkR='"none"', Shape='"all"', Emit="FALSE", EmitWiring="FALSE", Ordered="TRUE", MaxSeals="0", MaxOpens="0", MaxExports="0", MaxShots="0",
                   RecordHist="FALSE", HistLen="0", FormMenu='{"alloc"}', OvfFirstInOpen="TRUE")
 
 
@@ -788,7 +788,50 @@ def c15(chk, tier):
 
 
 def c15_wiring(chk, ses, thorough):
-    pass
+    from oracle.terms import ExactEval, leaves_of
+    from .replay import Replayer, make_leaves, SHARED_MEMO
+    verdicts = {"rfc": 0, "inconclusive": 0}
+    for i, kem in enumerate(KEMS):
+        got = []
+        generate(chk, "MC_Setup", "MC_Setup.cfg", "gen_wiring_%d" % kem,
+                 setup_over(KemSet="{%d}" % kem, KdfSet="{1, 2, 3}" if thorough else kset([rot([1, 2, 3], i)]),
+                            AeadSet="{1, 2, 3, 65535}" if thorough else kset([rot([1, 2, 3, 65535], i)]),
+                            ModeSet="{1, 3}", Vals='"leaf"', Shape='"all"' if thorough else '"one"', Perturb='{"none"}',
+                            EmitWiring=True),
+                 invariants=[], on_value=got.append, workers=1)
+        if not got or "wiring" not in got[0]:
+            raise ToolError("no wiring records")
+        pro = {e["kem"]: [e["pro"][k] for k in sorted(e["pro"])] for e in got[0]["prologue"]}
+        for w in got[0]["wiring"]:
+            steps = pro[kem] + [w["setup"], w["export"]]
+            leaves = make_leaves(leaves_of([steps, w["hyps"]]), seed())
+            ses.n += 1
+            rp = Replayer(ses.ex, leaves, exact_tags=frozenset(), prefix="w%d_" % ses.n, compare_bytes=False)
+            idx, bad = rp.run(steps)
+            ses.ex.call({"op": "drop", "ctx": "w%d_s" % ses.n})
+            if idx is not None:
+                # setup or export did not even succeed: not a wiring question
+                verdicts["inconclusive"] += 1
+                continue
+            observed = bytes.fromhex(rp.trace[-1][1]["ok"]["out"])
+            ev = ExactEval(leaves)
+            ev.memo = SHARED_MEMO
+            match = [h for h in sorted(w["hyps"]) if ev.eval(w["hyps"][h]) == observed]
+            su, mo = tuple(w["setup"]["plain"]["suite"]), w["setup"]["plain"]["mode"]
+            chk.case(("wiring", su, mo, _digest(w["setup"]["bytes"])))
+            if "rfc" in match:
+                verdicts["rfc"] += 1
+                chk.trace_ok()
+            elif match:
+                chk.violation("key schedule wires the PSK bundle as hypothesis %r (suite %s mode %d): the export equals "
+                              "what that mis-wiring gives, not the RFC 9180 value" % (match[0], list(su), mo),
+                              {"kind": "wiring", "seed": seed(), "steps": steps, "hyps": w["hyps"], "matched": match,
+                               "observed": observed.hex(), "fingerprint": "wiring-" + match[0]})
+            else:
+                verdicts["inconclusive"] += 1
+    chk.notes["wiring_verdicts"] = verdicts
+    if verdicts["rfc"] == 0 and verdicts["inconclusive"] > 0:
+        log("C15 wiring: every case inconclusive (the key schedule deviates elsewhere; see C02)")
 
 
 # ------------------------------------------------------------------------------------------- C13
